@@ -27,7 +27,8 @@ Proof. exact (@NodeA.C06_gate_closing n cid c m). Qed.
    (no other connection towards that peer, or the local name is the greater one): the rivals are closed
    (CLEAN), the CER is answered 2001 and the connection becomes READY *)
 Theorem C06_cer_known n cid c m h p :
-  get_conn n cid = Some c -> m_origin m = Present h -> get_peer n h = Some p ->
+  get_conn n cid = Some c -> c_state c = SConnected ->
+  m_origin m = Present h -> get_peer n h = Some p ->
   (election_rivals n cid h = [] \/ String.ltb h (g_host (n_cfg n)) = true) ->
   (inter_z (node_auth n) (m_auth m) <> [] \/ inter_z (node_acct n) (m_acct m) <> [] \/
    mem_z APP_RELAY (m_auth m) || mem_z APP_RELAY (m_acct m) = true) ->
@@ -40,7 +41,8 @@ Proof. exact (@NodeA.C06_cer_known n cid c m h p). Qed.
 
 (* C06: ... with no other connection towards that peer the answer is the only output *)
 Theorem C06_cer_known_no_rivals n cid c m h p :
-  get_conn n cid = Some c -> m_origin m = Present h -> get_peer n h = Some p ->
+  get_conn n cid = Some c -> c_state c = SConnected ->
+  m_origin m = Present h -> get_peer n h = Some p ->
   election_rivals n cid h = [] ->
   (inter_z (node_auth n) (m_auth m) <> [] \/ inter_z (node_acct n) (m_acct m) <> [] \/
    mem_z APP_RELAY (m_auth m) || mem_z APP_RELAY (m_acct m) = true) ->
@@ -51,7 +53,8 @@ Proof. exact (@NodeA.C06_cer_known_no_rivals n cid c m h p). Qed.
 (* C06: the election is won (there are other connections towards the peer and the local name is the
    greater one): every rival is closed (CLEAN) and removed, then the CER is answered 2001, READY *)
 Theorem C06_cer_election_won n cid c m h p :
-  get_conn n cid = Some c -> m_origin m = Present h -> get_peer n h = Some p ->
+  get_conn n cid = Some c -> c_state c = SConnected ->
+  m_origin m = Present h -> get_peer n h = Some p ->
   election_rivals n cid h <> [] -> String.ltb h (g_host (n_cfg n)) = true ->
   (inter_z (node_auth n) (m_auth m) <> [] \/ inter_z (node_acct n) (m_acct m) <> [] \/
    mem_z APP_RELAY (m_auth m) || mem_z APP_RELAY (m_acct m) = true) ->
@@ -69,7 +72,8 @@ Proof. exact (@NodeA.C06_cer_election_won n cid c m h p). Qed.
    greater one): the CER is answered 4003, the connection is CLOSING, nothing else changes: in particular no
    connection becomes ready *)
 Theorem C06_cer_election_lost n cid c m h p :
-  get_conn n cid = Some c -> m_origin m = Present h -> get_peer n h = Some p ->
+  get_conn n cid = Some c -> c_state c = SConnected ->
+  m_origin m = Present h -> get_peer n h = Some p ->
   election_rivals n cid h <> [] -> String.ltb h (g_host (n_cfg n)) = false ->
   snd (recv_cer n cid m) = [OQueue cid (answer_of m (Some 4003) [])] /\
   (exists c', get_conn (fst (recv_cer n cid m)) cid = Some c' /\ c_state c' = SClosing) /\
@@ -80,7 +84,7 @@ Proof. exact (@NodeA.C06_cer_election_lost n cid c m h p). Qed.
 
 (* C06: a CER of an unknown peer is answered 3010 and the connection is CLOSING *)
 Theorem C06_cer_unknown n cid c m h :
-  get_conn n cid = Some c -> m_origin m = Present h -> get_peer n h = None ->
+  get_conn n cid = Some c -> c_state c = SConnected -> m_origin m = Present h -> get_peer n h = None ->
   snd (recv_cer n cid m) = [OQueue cid (answer_of m (Some 3010) [])] /\
   exists c', get_conn (fst (recv_cer n cid m)) cid = Some c' /\ c_state c' = SClosing.
 Proof. exact (@NodeA.C06_cer_unknown n cid c m h). Qed.
@@ -88,7 +92,8 @@ Proof. exact (@NodeA.C06_cer_unknown n cid c m h). Qed.
 (* C06: a CER of a configured peer with no common application, the election being decided for the new
    connection: the rivals are closed, the CER is answered 5010; the state is unchanged *)
 Theorem C06_cer_no_common n cid c m h p :
-  get_conn n cid = Some c -> m_origin m = Present h -> get_peer n h = Some p ->
+  get_conn n cid = Some c -> c_state c = SConnected ->
+  m_origin m = Present h -> get_peer n h = Some p ->
   (election_rivals n cid h = [] \/ String.ltb h (g_host (n_cfg n)) = true) ->
   inter_z (node_auth n) (m_auth m) = [] -> inter_z (node_acct n) (m_acct m) = [] ->
   mem_z APP_RELAY (m_auth m) || mem_z APP_RELAY (m_acct m) = false ->
@@ -101,7 +106,8 @@ Proof. exact (@NodeA.C06_cer_no_common n cid c m h p). Qed.
 
 (* C06: ... with no other connection towards that peer the 5010 answer is the only output *)
 Theorem C06_cer_no_common_no_rivals n cid c m h p :
-  get_conn n cid = Some c -> m_origin m = Present h -> get_peer n h = Some p ->
+  get_conn n cid = Some c -> c_state c = SConnected ->
+  m_origin m = Present h -> get_peer n h = Some p ->
   election_rivals n cid h = [] ->
   inter_z (node_auth n) (m_auth m) = [] -> inter_z (node_acct n) (m_acct m) = [] ->
   mem_z APP_RELAY (m_auth m) || mem_z APP_RELAY (m_acct m) = false ->
@@ -176,36 +182,50 @@ Theorem C06_timeout n cid c :
   (n_now n - c_last_read c <= t -> check_timers n cid = (n, [])).
 Proof. exact (@NodeA.C06_timeout n cid c). Qed.
 
+(* C06: a CER is ignored unless the connection exists and is CONNECTED (the CER is awaited): a second CER, or a
+   CER on an established, disconnecting or closing connection, changes nothing and is not answered *)
+Theorem C06_cer_ignored_unless_connected n cid m :
+  (forall c, get_conn n cid = Some c -> c_state c <> SConnected) -> recv_cer n cid m = (n, []).
+Proof. exact (@NodeA.C06_cer_ignored_unless_connected n cid m). Qed.
+
 (* freshness of connection numbers is an invariant of step (it holds for a node without connections) *)
 Theorem conns_fresh_step n ds e : conns_fresh n -> conns_fresh (fst (step n ds e)).
 Proof. exact (@NodeA.conns_fresh_step n ds e). Qed.
 
 (* C06: a connection that was not ready and is ready after a step: the step was a network read on that
-   connection whose frames contain a CER of a configured peer or a CEA 2001; if the connection was CONNECTED
-   the message has the direction of the connection (CER on an inbound, CEA on an outbound connection); in
-   every other state (CONNECTING, DISCONNECTING, CLOSING, CLOSED) it is a CER of a configured peer: a CEA
-   acts on a CONNECTED connection only *)
+   connection, the connection was CONNECTED, and the frames contain a CER of a configured peer or a CEA 2001,
+   namely the one of the connection's direction (CER on an inbound, CEA on an outbound connection) *)
 Theorem C06_ready_only_by_ce n ds e cid c c' :
   (cid < n_next_cid n)%nat ->
   get_conn n cid = Some c -> is_ready_state (c_state c) = false ->
   get_conn (fst (step n ds e)) cid = Some c' -> is_ready_state (c_state c') = true ->
-  exists ms, e = ERecv cid ms /\
+  exists ms, e = ERecv cid ms /\ c_state c = SConnected /\
     (exists m, List.In m ms /\ (is_good_cer n m \/ is_good_cea m)) /\
-    (c_state c = SConnected ->
-     exists m, List.In m ms /\ if c_recv c then is_good_cer n m else is_good_cea m) /\
-    (c_state c <> SConnected -> exists m, List.In m ms /\ is_good_cer n m).
+    (exists m, List.In m ms /\ if c_recv c then is_good_cer n m else is_good_cea m).
 Proof. exact (@NodeA.C06_ready_only_by_ce n ds e cid c c'). Qed.
 
-(* C06: the direction of the capabilities exchange.  A connection becomes ready only by (a) a CEA 2001 while
-   it is CONNECTED and outbound, or (b) a CER of a configured peer (which, on a CONNECTED connection, passes
-   the gate only if the connection is inbound) *)
+(* C06: a connection becomes ready only from CONNECTED.  A connection that was not ready and is ready after a
+   step was CONNECTED (one that is CONNECTING, DISCONNECTING, CLOSING or CLOSED never becomes ready, whatever
+   happens), the step was a network read on that connection, and its frames contain the capabilities-exchange
+   message of the connection's direction: a CER of a configured peer on an inbound connection, a CEA 2001 on
+   an outbound one *)
+Theorem C06_ready_only_from_connected n ds e cid c c' :
+  get_conn n cid = Some c -> (cid < n_next_cid n)%nat -> is_ready_state (c_state c) = false ->
+  get_conn (fst (step n ds e)) cid = Some c' -> is_ready_state (c_state c') = true ->
+  c_state c = SConnected /\
+  exists ms, e = ERecv cid ms /\
+    exists m, List.In m ms /\ if c_recv c then is_good_cer n m else is_good_cea m.
+Proof. exact (@NodeA.C06_ready_only_from_connected n ds e cid c c'). Qed.
+
+(* C06: the direction of the capabilities exchange.  A connection becomes ready only while it is CONNECTED and
+   only by (a) a CEA 2001 if it is outbound, (b) a CER of a configured peer if it is inbound *)
 Theorem C06_direction n ds e cid c c' :
   (cid < n_next_cid n)%nat ->
   get_conn n cid = Some c -> is_ready_state (c_state c) = false ->
   get_conn (fst (step n ds e)) cid = Some c' -> is_ready_state (c_state c') = true ->
-  exists ms, e = ERecv cid ms /\
-    ((c_state c = SConnected /\ c_recv c = false /\ exists m, List.In m ms /\ is_good_cea m) \/
-     ((c_state c = SConnected -> c_recv c = true) /\ exists m, List.In m ms /\ is_good_cer n m)).
+  exists ms, e = ERecv cid ms /\ c_state c = SConnected /\
+    ((c_recv c = false /\ exists m, List.In m ms /\ is_good_cea m) \/
+     (c_recv c = true /\ exists m, List.In m ms /\ is_good_cer n m)).
 Proof. exact (@NodeA.C06_direction n ds e cid c c'). Qed.
 
 (* C06: an outbound CONNECTED connection becomes ready only by a CEA 2001 *)
@@ -216,17 +236,22 @@ Theorem C06_direction_outbound n ds e cid c c' :
   exists ms, e = ERecv cid ms /\ exists m, List.In m ms /\ is_good_cea m.
 Proof. exact (@NodeA.C06_direction_outbound n ds e cid c c'). Qed.
 
-(* C06: a CEA never revives a connection: one that is CONNECTING, DISCONNECTING, CLOSING or CLOSED becomes
-   ready only by a CER of a configured peer; a read that holds answers only leaves it not ready *)
+(* C06: an inbound CONNECTED connection becomes ready only by a CER of a configured peer *)
+Theorem C06_direction_inbound n ds e cid c c' :
+  (cid < n_next_cid n)%nat ->
+  get_conn n cid = Some c -> c_state c = SConnected -> c_recv c = true ->
+  get_conn (fst (step n ds e)) cid = Some c' -> is_ready_state (c_state c') = true ->
+  exists ms, e = ERecv cid ms /\ exists m, List.In m ms /\ is_good_cer n m.
+Proof. exact (@NodeA.C06_direction_inbound n ds e cid c c'). Qed.
+
+(* C06: nothing revives a connection: one that is CONNECTING, DISCONNECTING, CLOSING or CLOSED is not ready
+   after the step, whatever the event is and whatever is received (neither a CEA nor a CER) *)
 Theorem C06_cea_never_revives n ds e cid c c' :
   (cid < n_next_cid n)%nat ->
   get_conn n cid = Some c ->
   (c_state c = SConnecting \/ c_state c = SDisconnecting \/ c_state c = SClosing \/ c_state c = SClosed) ->
   get_conn (fst (step n ds e)) cid = Some c' ->
-  (is_ready_state (c_state c') = true ->
-   exists ms, e = ERecv cid ms /\ exists m, List.In m ms /\ is_good_cer n m) /\
-  (forall ms, e = ERecv cid ms -> (forall m, List.In m ms -> m_req m = false) ->
-   is_ready_state (c_state c') = false).
+  is_ready_state (c_state c') = false.
 Proof. exact (@NodeA.C06_cea_never_revives n ds e cid c c'). Qed.
 End FromNodeA.
 
@@ -247,8 +272,11 @@ Print Assumptions FromNodeA.C06_cea_wrong_identity.
 Print Assumptions FromNodeA.C06_cea_without_origin.
 Print Assumptions FromNodeA.C06_cea_ignored_unless_connected.
 Print Assumptions FromNodeA.C06_timeout.
+Print Assumptions FromNodeA.C06_cer_ignored_unless_connected.
 Print Assumptions FromNodeA.conns_fresh_step.
 Print Assumptions FromNodeA.C06_ready_only_by_ce.
+Print Assumptions FromNodeA.C06_ready_only_from_connected.
 Print Assumptions FromNodeA.C06_direction.
 Print Assumptions FromNodeA.C06_direction_outbound.
+Print Assumptions FromNodeA.C06_direction_inbound.
 Print Assumptions FromNodeA.C06_cea_never_revives.
